@@ -16,26 +16,19 @@ import (
 	"github.com/nspcc-dev/neo-go/pkg/core/storage"
 )
 
-// TestTornProbe (information for the lead, NOT part of the check: run with VERIF_TORN=1). In production the persist
-// timer runs concurrently with the deliveries, so a flush can fall INSIDE one AddMPTNodes call: between the Put of a
-// restored leaf and the Put of its storage item, or between a node restored under one path and its restoration under
-// another. The probe lets a flusher goroutine spin while trie nodes are delivered, then crashes at every batch.
-func TestTornProbe(t *testing.T) {
-	if os.Getenv("VERIF_TORN") == "" {
-		t.Skip("probe")
-	}
-	w := &world{t: t, id: 0, net: chainkit.NewNet(5, 3), ssi: 4, mtb: 8}
-	if err := w.build(21, 104729, 0); err != nil {
-		t.Fatal(err)
-	}
-	defer w.src.Close()
-	ref := w.life(nil, false, w.N, nil, rand.New(rand.NewSource(1)), 0, false)
-	torn, bad := 0, 0
-	for round := 0; round < 6; round++ {
+// tornRounds (INFORMATIONAL: timing dependent by nature). In production the persist timer runs concurrently with the
+// deliveries, so a flush can fall INSIDE one AddMPTNodes call: between the Put of a restored leaf and the Put of its
+// storage item, or between a node restored under one path and its restoration under another. A flusher goroutine spins
+// while trie nodes are delivered to a recorded node; every batch prefix whose image shows a restored leaf without its item
+// or a reference count that is not the number of restored paths ("torn image") is restarted and continued to the end.
+// Returns the number of torn images, how many of them ended differently from an uninterrupted synchronisation, and
+// descriptions of the first few. (Tree before b3bbb7d / 131ee52: dozens of torn images, all ending wrong.)
+func tornRounds(w *world, rounds int, ref *runOut) (torn, bad int, descr []string, err error) {
+	for round := 0; round < rounds; round++ {
 		s := &sink{w: w, r: rand.New(rand.NewSource(int64(round))), mem: storage.NewMemoryStore()}
 		s.rec = NewRecStore(s.mem)
 		if a, b, c := s.boot(w.N); a+b+c != "" {
-			t.Fatal(a, b, c)
+			return torn, bad, descr, fmt.Errorf("boot: %s %s %s", a, b, c)
 		}
 		s.advance("mpt")
 		var stop atomic.Bool
@@ -53,11 +46,12 @@ func TestTornProbe(t *testing.T) {
 		}
 		stop.Store(true)
 		wg.Wait()
-		if !s.ok() {
-			t.Fatalf("delivery failed: %v %v", s.refuse, s.pan)
-		}
+		ok := s.ok()
 		bs := s.rec.Batches()
 		s.close()
+		if !ok {
+			return torn, bad, descr, fmt.Errorf("delivery under a concurrent flusher failed: %v %v", s.refuse, s.pan)
+		}
 		img := Disk{}
 		for i, b := range bs {
 			img.Apply(b)
@@ -67,16 +61,36 @@ func TestTornProbe(t *testing.T) {
 			}
 			torn++
 			o := w.life(img.Clone(), false, w.N, nil, rand.New(rand.NewSource(int64(i))), 0, false)
-			eq := o.v.final1 != nil && len(DiffDisks(o.v.final1, ref.v.final1, 1)) == 0
+			eq := o.v.final1 != nil && ref.v.final1 != nil && len(DiffDisks(o.v.final1, ref.v.final1, 1)) == 0
 			if !o.completed || !o.v.rootOK || !o.v.storeOK || !eq {
 				bad++
-				if bad <= 5 {
-					fmt.Printf("round %d batch %d/%d: durable image with temp_miss=%d rc_bad=%d (stored %d) -> after restart: completed=%v root_ok=%v storage_ok=%v raw_equal=%v lockstep=%v stuck=%q panic=%q\n",
-						round, i, len(bs), f.TempMiss, f.RcBad, f.Stored, o.completed, o.v.rootOK, o.v.storeOK, eq, o.v.lock, o.stuck, o.pan)
+				if len(descr) < 4 {
+					descr = append(descr, fmt.Sprintf("round %d batch %d/%d: durable image with %d restored leaves without their item, %d nodes with a wrong reference count (%d stored) -> after restart: completed=%v root_ok=%v storage_ok=%v raw_equal=%v stuck=%q panic=%q",
+						round, i, len(bs), f.TempMiss, f.RcBad, f.Stored, o.completed, o.v.rootOK, o.v.storeOK, eq, o.stuck, o.pan))
 				}
 			}
 		}
-		fmt.Printf("round %d: %d batches\n", round, len(bs))
+	}
+	return torn, bad, descr, nil
+}
+
+// TestTornProbe: the torn-delivery probe on its own (VERIF_TORN=1), six rounds, printed.
+func TestTornProbe(t *testing.T) {
+	if os.Getenv("VERIF_TORN") == "" {
+		t.Skip("probe")
+	}
+	w := &world{t: t, id: 0, net: chainkit.NewNet(5, 3), ssi: 4, mtb: 8}
+	if err := w.build(21, 104729, 0); err != nil {
+		t.Fatal(err)
+	}
+	defer w.src.Close()
+	ref := w.life(nil, false, w.N, nil, rand.New(rand.NewSource(1)), 0, false)
+	torn, bad, descr, err := tornRounds(w, 6, ref)
+	if err != nil {
+		t.Fatal(err)
+	}
+	for _, d := range descr {
+		fmt.Println(d)
 	}
 	fmt.Printf("torn images: %d, of which end wrong: %d\n", torn, bad)
 }
